@@ -118,6 +118,26 @@ impl PyLog {
     }
 }
 
+
+/// `Read + Seek` wrapper that never returns more than `max` bytes per `read` call.
+struct ShortReader<R> {
+    inner: R,
+    max: usize,
+}
+
+impl<R: std::io::Read> std::io::Read for ShortReader<R> {
+    fn read(&mut self, buf: &mut [u8]) -> std::io::Result<usize> {
+        let n = buf.len().min(self.max);
+        self.inner.read(&mut buf[..n])
+    }
+}
+
+impl<R: std::io::Seek> std::io::Seek for ShortReader<R> {
+    fn seek(&mut self, pos: std::io::SeekFrom) -> std::io::Result<u64> {
+        self.inner.seek(pos)
+    }
+}
+
 fn panic_text(p: &Box<dyn std::any::Any + Send>) -> String {
     vh::monitor::watchdog::panic_message(p)
 }
@@ -313,6 +333,22 @@ fn run_case(
         if max_diff_block > buf.unwrap_or(8192).max(1024) as i64 {
             loc.obs("stream.diff_block_larger_than_buffer", 1);
         }
+    }
+
+    // the old file behind a reader that returns short reads (allowed by `std::io::Read`): a pipe, a network
+    // file system or a decompressing reader behaves like this, `Cursor` and local files do not
+    for (chunk, buf) in [(1usize, None), (5, Some(7usize)), (13, Some(4096))] {
+        results.push((
+            "ZbsdiffPatcher(short-reads)",
+            buf,
+            guarded(|| {
+                let mut p = ZbsdiffPatcher::new(ShortReader { inner: Cursor::new(old), max: chunk }, out_size);
+                if let Some(bs) = buf {
+                    p = p.with_buffer_size(bs);
+                }
+                p.apply_patch_from_data(&patch).map_err(|e| e.to_string())
+            }),
+        ));
     }
 
     let mut repo_all_new = true;
